@@ -71,6 +71,11 @@ def gen_cases(tier, seed):
         if nparts and i % 7 == 4:
             cases[-1]["key_kinds"] = [["dt", "float"], ["int", "float"], ["bool", "dt"], ["float", "int"]][(i // 7) % 4][:nparts]
             cases[-1]["same_domain"] = cases[-1]["cat_partition"] = False
+    # --- the dataset in a file system of its own, edited through handles opened on that file system
+    for i in range(16 if tier == "quick" else 200):
+        cases.append({"id": "FS/%d/%d" % (seed, i), "other_filesystem": True, "partitioned": bool(i % 2), "seed": 9900 + 31 * seed + i, "nparts": int(i % 2), "ops": [],
+                      })
+        cases[-1]["ops"] = [["remove", "append", "remove"], ["append", "remove"], ["remove", "remove", "append", "append"]][i % 3]
     return cases
 
 
@@ -158,7 +163,74 @@ def check_invariants(path, model_rids, src, ctx, res, counters, aud_events=None)
     return pf
 
 
+def run_other_filesystem(case):
+    """The dataset lives in a file system of its own (fsspec's in-memory one) and is edited through handles opened on it: after every
+    edit a fresh handle on that file system must read the model, and every file _metadata names must exist there."""
+    import fsspec
+    import pandas as pd
+    import fastparquet
+    from vf.props import common as C
+    counters = {}
+    res = {"features": [], "nontrivial": False, "failures": [], "counters": counters}
+    fs = fsspec.filesystem("memory")
+    root = "/vf-c09-%s" % case["id"].replace("/", "-")
+    if fs.exists(root):
+        fs.rm(root, recursive=True)
+    rng = np.random.default_rng([case["seed"], 9])
+    try:
+        n = 24
+        df = pd.DataFrame({"rid": np.arange(n, dtype="int64"), "v": rng.standard_normal(n), "p0": np.array(["u", "w"], dtype=object)[np.arange(n) % 2]})
+        mk = lambda d_: fs.mkdirs(d_, exist_ok=True)
+        kw = {"file_scheme": "hive", "open_with": fs.open, "mkdirs": mk, "row_group_offsets": 6}
+        if case["partitioned"]:
+            kw["partition_on"] = ["p0"]
+        fastparquet.write(root, df, **kw)
+        model = set(range(n))
+        next_rid = n
+        for step, op in enumerate(case["ops"]):
+            pf = fastparquet.ParquetFile(root, fs=fs)
+            ctx = {"step": step, "op": op, "partitioned": case["partitioned"], "file_system": "memory"}
+            try:
+                if op == "remove":
+                    i = int(rng.integers(0, len(pf.row_groups)))
+                    gone = set(int(x) for x in pf[i].to_pandas(columns=["rid"], index=False)["rid"].tolist())
+                    pf.remove_row_groups(pf.row_groups[i])
+                    model -= gone
+                else:
+                    new = pd.DataFrame({"rid": np.arange(next_rid, next_rid + 4, dtype="int64"), "v": rng.standard_normal(4), "p0": np.array(["u", "w", "u", "w"], dtype=object)})
+                    next_rid += 4
+                    pf.write_row_groups(new, mkdirs=mk)
+                    model |= set(new["rid"].tolist())
+            except Exception as e:
+                res["failures"].append({"kind": "operation_raised", **ctx, **C.exc_shape(e)})
+            try:
+                fresh = fastparquet.ParquetFile(root, fs=fs)
+                paths_ = {(c.file_path.decode() if isinstance(c.file_path, bytes) else c.file_path) for rg in fresh.row_groups for c in rg.columns}
+                missing = sorted(p_ for p_ in paths_ if not fs.exists(root + "/" + p_))
+                if missing:
+                    res["failures"].append({"kind": "I1_metadata_names_missing_file", "missing": missing[:4], **ctx})
+                got = sorted(int(x) for x in fresh.to_pandas(columns=["rid"], index=False)["rid"].tolist())
+                if got != sorted(model):
+                    res["failures"].append({"kind": "content_differs_from_model", "n_got": len(got), "n_model": len(model), **ctx})
+            except Exception as e:
+                res["failures"].append({"kind": "dataset_unreadable_after_operation", **ctx, **C.exc_shape(e)})
+                break
+            counters["edits_through_handles_on_another_file_system"] = counters.get("edits_through_handles_on_another_file_system", 0) + 1
+            counters["invariant_checks"] = counters.get("invariant_checks", 0) + 1
+        res["outcome"] = "ok"
+        res["nontrivial"] = True
+        res["features"] = [str(("memory_fs", case["partitioned"], tuple(case["ops"])))]
+        return res
+    finally:
+        try:
+            fs.rm(root, recursive=True)
+        except Exception:
+            pass
+
+
 def run_case(case):
+    if case.get("other_filesystem"):
+        return run_other_filesystem(case)
     import pandas as pd
     import fastparquet
     from vf.props import common as C
@@ -253,7 +325,14 @@ def run_case(case):
                         for i in sel:
                             removed |= set(int(x) for x in pf[i].to_pandas(columns=["rid"], index=False)["rid"].tolist())
                         ctx["removed_row_groups"] = sel
-                        pf.remove_row_groups([pf.row_groups[i] for i in sel], sort_pnames=op["sort_pnames"])
+                        victims = [pf.row_groups[i] for i in sel]
+                        if op["seed"] % 3 == 0:
+                            # the row groups to drop are picked on another (freshly opened) handle of the same dataset: equal, not identical
+                            other = fastparquet.ParquetFile(path)
+                            if len(other.row_groups) == nrg:
+                                victims = [other.row_groups[i] for i in sel]
+                                counters["removals_of_row_groups_taken_from_another_handle"] = counters.get("removals_of_row_groups_taken_from_another_handle", 0) + 1
+                        pf.remove_row_groups(victims, sort_pnames=op["sort_pnames"])
                         model -= removed
                     elif k == "write_rgs":
                         new = _frame(rng, next_rid, op["rows"], nparts, case.get("same_domain", False), case.get("cat_partition", False), case.get("key_kinds"))
@@ -303,4 +382,4 @@ def run_case(case):
 
 def required(tier):
     return {"invariant_checks": 600, "op:append": 100, "op:overwrite": 50, "op:remove": 50, "op:remove_sorted": 50, "op:write_rgs": 50,
-            "renames_observed": 50, "I1_files_checked": 2000}
+            "renames_observed": 50, "I1_files_checked": 2000, "removals_of_row_groups_taken_from_another_handle": 20, "edits_through_handles_on_another_file_system": 30}
